@@ -10,7 +10,7 @@ use packing::traits::ToSVG;
 use packing::{LJShape2, LineShape, MolecularShape2, PackedState2, PotentialState2};
 use rayon::sim::SimConfig;
 use sim_core::driver::{Check, RunOut, Tier, Violation};
-use sim_core::json::J;
+use sim_core::json::{self, J};
 use sim_core::prng::{Hasher64, Rng};
 
 pub struct C11e3;
@@ -133,7 +133,13 @@ impl Check for C11e3 {
                     format!("schedule {}: the structure file written by analyse_state cannot be read back: {}", it, e),
                 )),
                 Ok((svg_again, json_again)) => {
-                    if json_again.as_bytes() != &js[..] {
+                    // (the tool is free to lay the file out as it likes - pretty or compact -; what
+                    // must agree is the content: same keys in the same order, same number tokens)
+                    let same_content = match (std::str::from_utf8(js).ok().and_then(|t| json::parse(t).ok()), json::parse(&json_again).ok()) {
+                        (Some(a), Some(b)) => a == b,
+                        _ => false,
+                    };
+                    if !same_content {
                         out.violate(Violation::new("cli-json-reserialisation-differs", it as u64, format!("schedule {}: reading the written JSON back and writing it again gives other bytes", it)));
                     }
                     if &svg_again[..] != &sv[..] {
